@@ -142,6 +142,18 @@ pub fn cases(tier: &str) -> Vec<Case> {
     out
 }
 
+fn sampler_warm_up<K: Kit>(spec: &crate::kit::Spec) {
+    use oxmpl::base::space::StateSpace;
+    use rand::SeedableRng;
+    let _ = guarded(|| {
+        let sp = K::build(spec);
+        let mut r = rand::rngs::StdRng::seed_from_u64(0xD0);
+        for _ in 0..3 {
+            let _ = sp.sample_uniform(&mut r);
+        }
+    });
+}
+
 /// Another problem for the same kind of space: other resolution, other weights / bounds, other seed.
 fn decoy_of(case: &Case) -> Case {
     use crate::kit::Spec;
@@ -237,6 +249,9 @@ fn run_case(case: &Case, idx: usize, tier: &str, rep: &mut Report) {
     let (w, _) = with_entropy(0xA11CE, || {
         let decoy = decoy_of(case);
         let _ = with_kit!(kit, execute(&decoy));
+        // ... and has used the SAME kind of sampler with another generator, an odd number of times (a value
+        // parked between calls - the second deviate of a polar-method pair - would be left over)
+        with_kit!(kit, sampler_warm_up(&case.sc.spec));
         with_kit!(kit, execute(case))
     });
     rep.count("evaluations", 3);
